@@ -337,6 +337,14 @@ def r3_syspath_pairing(ctx):
     fexit = ctx.func(PPC + '.__exit__')
     ins = [n for n in ast.walk(fenter.node) if isinstance(n, ast.Call) and isinstance(n.func, ast.Attribute) and n.func.attr in ('insert', 'append') and _is_sys_attr(n.func.value, ('path',))]
     rep.ob('C12.R3b', ctx.loc(fenter, fenter.node), '__enter__ inserts one entry', len(ins) == 1, '%d insertion(s)' % len(ins), nontrivial=False, anchor=PPC)
+    if len(ins) == 1:
+        # __exit__ removes an entry unconditionally, so __enter__ must have inserted one on every normal exit
+        ge = ctx.cfg(fenter)
+        ins_nodes = [n for n in ge.nodes for c in node_calls(n) if isinstance(c.func, ast.Attribute) and c.func.attr in ('insert', 'append') and _is_sys_attr(c.func.value, ('path',))]
+        wit = graph.must_pass([ge.entry], lambda x: x is ge.exit, through=ins_nodes, efilter=graph.normal_only)
+        rep.ob('C12.R3b', ctx.loc(fenter, fenter.node), '__enter__ inserts on every normal exit', wit is None,
+               'every normal exit of __enter__ has inserted the directory' if wit is None else
+               '__enter__ can return without inserting the directory, and __exit__ removes an entry unconditionally: an entry that was on sys.path before is removed', anchor=PPC)
     g = ctx.cfg(fexit)
     pops = [n for n in g.nodes for c in node_calls(n) if isinstance(c.func, ast.Attribute) and c.func.attr in ('pop', 'remove') and _is_sys_attr(c.func.value, ('path',))
             or (n.kind == 'stmt' and isinstance(n.ast, ast.Delete) and any(isinstance(t, ast.Subscript) and _is_sys_attr(t.value, ('path',)) for t in n.ast.targets))]
@@ -564,6 +572,7 @@ VARIANTS = [
     fire('pathcontext-without-with', 'C12.R3a',
          (UI, "        with PythonPathContext(dpath, index=index):\n            module = import_module_from_name(modname)\n",
               "        ctxmgr = PythonPathContext(dpath, index=index)\n        ctxmgr.__enter__()\n        module = import_module_from_name(modname)\n        ctxmgr.__exit__(None, None, None)\n")),
+    fire('enter-returns-without-insert', 'C12.R3b', (UI, "        sys.path.insert(self.index, self.dpath)\n\n    def __exit__", "        if sys.path[self.index:self.index + 1] == [self.dpath]:\n            return\n        sys.path.insert(self.index, self.dpath)\n\n    def __exit__")),
     fire('exit-path-without-pop', 'C12.R3b', (UI, "                warnings.warn('\\n'.join(msg_parts))\n                sys.path.pop(real_index)\n", "                warnings.warn('\\n'.join(msg_parts))\n")),
     fire('exec-outside-catch-warnings', 'C12.R4',
          (DE, "        with warnings.catch_warnings(record=True) as self.warn_list:\n", "        self.warn_list = []\n        if True:\n")),
